@@ -11,7 +11,7 @@ structure T where
   storage : List Block
 deriving Repr, DecidableEq
 
-def k32 : Cfg := ⟨64, 32, false⟩
+abbrev k32 : Cfg := ⟨64, 32, false⟩
 
 /-- `block_set(kmer, pos, val)` -/
 def blockSet (b : Block) (pos val : Nat) : Block :=
